@@ -348,5 +348,14 @@ package node
 //@   ensures[global;C04] (len(symTbl) < 1 || !mapdom(symTbl[len(symTbl)-1], string(n))) && (len(symTbl) < 2 || !mapdom(symTbl[len(symTbl)-2], string(n))) ==>
 //@       dyntype(result) == typeid[Name]() && result.(Name) == n
 //
+// ---- script files (C16) ----------------------------------------------------------------------------
+// Loop stops at the first read error and discards what came with it, so a reader must never report an
+// error together with data: otherwise the final line of a file that does not end in a newline is lost.
+//@ type lineReader.read [C16]
+//@   params self
+//@   modifies *
+//@   ensures[no_data_with_error;C16] result1 != nil ==> result0 == ""
+//@ func (FReader).read [C16] implements lineReader.read
+//
 //@ canary func (Name).Name
 //@   ensures false
